@@ -120,8 +120,8 @@ _HANDLERS: tp.Mapping[
     # Short-circuit forward refs
     inspection.isforwardref: DelayedUnmarshaller,
     inspection.isunresolvable: routines.NoOpUnmarshaller,
-    # Callables (incl. `type[...]`) can't be (un)marshalled, pass them through.
-    (lambda t: inspection.origin(t) is tp.Callable): routines.NoOpUnmarshaller,
+    # Callables and classes (`type[...]`) can't be (un)marshalled, pass them through.
+    (lambda t: inspection.origin(t) in (tp.Callable, type)): routines.NoOpUnmarshaller,
     inspection.isnonetype: routines.NoneTypeUnmarshaller,
     # Special handler for Literals
     inspection.isliteral: routines.LiteralUnmarshaller,
